@@ -621,6 +621,8 @@ def rule_skip_conditions(chk, prog):
 def run(chk):
     prog = chk.load()
     chk.guard(rule_route_dist, chk, prog)
+    from .c03 import rule_contains
+    chk.guard(rule_contains, chk, prog)          # the incremental and the from-scratch producer of Router::contains agree (fresh router == history)
     chk.guard(rule_cost_bound, chk, prog)
     chk.guard(rule_stateless, chk, prog)
     chk.guard(rule_crossing_point, chk, prog)
